@@ -601,10 +601,10 @@ func TestVerifC02(t *testing.T) {
 	// one of its yield points while B runs up to one of its own and is then
 	// cancelled (client disconnect); A is resumed and, if acknowledged, the
 	// block must be retrievable from a new server on the same directory.
-	c02Overlap(t, run, hs, newDir, &judgeMu)
+	c02Overlap(t, run, hs, newDir, &judgeMu, "C02")
 }
 
-func c02Overlap(t *testing.T, run *verifkit.Run, hs *vkHTTP, newDir func() string, judgeMu *sync.Mutex) {
+func c02Overlap(t *testing.T, run *verifkit.Run, hs *vkHTTP, newDir func() string, judgeMu *sync.Mutex, prop string) {
 	type ov struct {
 		Size  int `json:"size"`
 		HoldA int `json:"hold_a_at_point"`
@@ -731,7 +731,7 @@ func c02Overlap(t *testing.T, run *verifkit.Run, hs *vkHTTP, newDir func() strin
 		}
 		run.Feature(fmt.Sprintf("overlap:size=%d,holdA=%d,stopB=%d,a=%d,b=%d", c.Size, c.HoldA, c.StopB, stA, stB))
 		for _, v := range viol {
-			run.Violation(v.sig, fmt.Sprintf("%s; two overlapping PUTs of one block: A held at its point %d, B cancelled at its point %d; A answered %d, B %d", v.detail, c.HoldA, c.StopB, stA, stB), c)
+			run.Violation(strings.Replace(v.sig, "C02:", prop+":", 1), fmt.Sprintf("%s; two overlapping PUTs of one block: A held at its point %d, B cancelled at its point %d; A answered %d, B %d", v.detail, c.HoldA, c.StopB, stA, stB), c)
 		}
 	})
 }
